@@ -95,8 +95,10 @@ hll_sketch_alloc<A>::hll_sketch_alloc(HllSketchImpl<A>* that) :
 
 template<typename A>
 hll_sketch_alloc<A>& hll_sketch_alloc<A>::operator=(const hll_sketch_alloc<A>& other) {
-  sketch_impl->get_deleter()(sketch_impl);
-  sketch_impl = other.sketch_impl->copy();
+  // copy first: other may be *this, and this object may have been moved from (null impl)
+  HllSketchImpl<A>* copy = other.sketch_impl->copy();
+  if (sketch_impl != nullptr) sketch_impl->get_deleter()(sketch_impl);
+  sketch_impl = copy;
   return *this;
 }
 
